@@ -12,6 +12,15 @@ Correspondence (Float instance of the same definitions, lean/PyGam/Model/Dists.l
   dist.phi          Distribution.phi(y, mu, edof, weights)             vs phi
   dist.sample.args  arguments received by numpy.random.{normal,binomial,poisson,gamma,wald} vs samplerParams (exact)
   dist.sample.draws seeded real draws: sample mean / variance vs (mu, scale V(mu)) with 8-sigma bounds (supporting)
+Histories (the values above are functions of (family, scale, y, mu, weights) only — Model/DistState.lean for the one piece of
+state there is, (`_known_scale`, `scale`)):
+  dist.purity       every method, each twice in random order, on the SAME y / mu / weights arrays (float64, int64, read-only,
+                    strided) and one distribution object: arguments bit-for-bit unchanged, value = the same call on fresh copies
+                    with a new object; V and deviance in mid-history vs the model
+  dist.phi.history  one object through 2-5 estimates, each stored in `.scale` as GAM._estimate_model_statistics does:
+                    phi = Pearson / (n - edof) of the current data, or the scale supplied to the constructor; vs phiAt / estimateHistory
+  gam.scale.history one GAM object fitted 2-3 times on different data: statistics_['scale'] of each fit vs Pearson / (n - edof)
+                    of that fit (NumPy on predict_mu, statistics_['edof']) and vs estimateHistory
 
 Oracle on the real code (NumPy only, independent of the model): non-negativity, zero at y = mu, central finite-difference
 derivative vs -2 (y - mu) / (scale V(mu, w)) with the class's own V, saturated-likelihood identity with the class's own
@@ -820,8 +829,9 @@ CONTAINERS = ('float64', 'int64', 'readonly', 'strided')
 # raises UFuncTypeError (normal with integer y, binomial, poisson: `dev /= self.scale` on an integer array) and
 # `utils.ylogydu` truncates `y log(y/u)` to integers (`np.zeros_like(u)`), e.g.
 # PoissonDist().deviance(np.array([3.]), np.array([2]), scaled=False) == 0 instead of 0.4328.  V / phi / log_pdf / sample
-# with an integer-dtype mu are checked in full.  Set to False once the library is repaired.
-INT_MU_DEVIANCE_SUSPECT = True
+# with an integer-dtype mu are checked in full.  Repaired in /repo by 9f6aee8 ("fix: deviance of an integer-dtype mu ..."):
+# the flag is off, integer-dtype deviances are judged like everything else.
+INT_MU_DEVIANCE_SUSPECT = False
 PURE_OPS = [('V', False), ('V', True),
             ('dev', False, False), ('dev', False, True), ('dev', True, False), ('dev', True, True),
             ('log_pdf', False), ('log_pdf', True), ('phi',), ('sample',)]
@@ -1315,7 +1325,9 @@ def _setup(ctx):
     ctx.extra['rule'] = ('per family x levels x scale (fixed grid 0.3, 1, 2.5, 0.25, harvested literals, log-uniform 1e-3..1e3): '
                          '(y, mu, weights) from the support x mean domain incl. y = 0, y = levels, y = mu, y within 1e-9..1e-2 of mu, '
                          'log-uniform magnitudes, neighbours of every numeric literal of distributions.py / ylogydu; '
-                         'distinct = distinct (stream, family, levels, scale, y, mu, w) tuples; a point is trivial when y == mu')
+                         'distinct = distinct (stream, family, levels, scale, y, mu, w) tuples; a point is trivial when y == mu; '
+                         'histories: distinct (family, levels, scale, container, arrays, call order) / (family, constructor scale, data of '
+                         'every estimate) / (family, how the model was built, data sets); trivial when the scale is supplied or fixed')
     ctx.assumptions.append('documented first two moments of numpy.random.{normal,binomial,poisson,gamma,wald} '
                            '(table `moments` of Model/Dists.lean; checked by seeded draws in dist.sample.draws)')
     ctx.assumptions.append('scipy.stats logpdf/logpmf = mu-free normaliser (lgamma, log y, log 2 pi, log scale terms) + the kernel of '
